@@ -94,6 +94,10 @@ def render_isar_struct(draw, schema, st_, patch):
             if m.size % 2 == 0 and m.size > 2 and m.size_expr == str(m.size) and draw(st.booleans()):
                 parts.append('<member %s><dimension size="%d" size2="2"/></member>' % (attrs, m.size // 2))
                 forms.add('size2')
+            elif draw(st.integers(0, 5)) == 0:
+                # a fixed array that says so explicitly
+                parts.append('<member %s><dimension size="%s" isVariableSize="false"/></member>' % (attrs, ir._xml(ir.isar_size(m))))
+                forms.add('isVariableSize-false')
             elif m.size_expr.isidentifier() and draw(st.booleans()):
                 # two-dimensional with a named extent: the parser hands "NAME*1" to the model-time evaluator
                 parts.append('<member %s><dimension size="%s" size2="1"/></member>' % (attrs, m.size_expr))
